@@ -42,6 +42,10 @@ class Abort(BaseException):
     """Unwinds a virtual process when an execution is cut short."""
 
 
+class Killed(BaseException):
+    """Raised inside a virtual process to make it die abruptly (as if by SIGKILL)."""
+
+
 class VmpError(Exception):
     """Error of the machinery (never a verdict)."""
 
@@ -89,6 +93,22 @@ class VProc(object):
                 self.outcome = ("return", r)
                 code = 0
             except Abort:
+                return
+            except Killed:
+                # the process dies where it stands (SIGKILL, OOM killer): nothing is flushed
+                self.outcome = ("killed", "SIGKILL", "")
+                for st in self.sched._proc_qstates(self):
+                    st["buf"] = []
+                    st["closed"] = True
+                    if st["feeder"] == "running":
+                        st["feeder"] = "done"
+                code = -9
+                self.finished = True
+                self.exitcode_pending = code
+                try:
+                    self.sched.op("exit")
+                except Abort:
+                    return
                 return
             except BaseException as e:  # like a child process: print traceback, exit code 1
                 self.outcome = ("raise", type(e).__name__, "".join(traceback.format_exception_only(type(e), e)).strip())
@@ -226,7 +246,7 @@ class Sched(object):
                 elif k == "join_thread":
                     q = p.pending[1]
                     st = q.state(p)
-                    if st["feeder"] in (None, "done"):
+                    if st["feeder"] in (None, "done") or st.get("cancel_join"):
                         self._resume(p)
                         progress = True
                 elif k == "join":
@@ -261,6 +281,9 @@ class Sched(object):
                 q, obj = op[1], op[2]
                 if q.maxsize <= 0 or q.sem > 0:
                     acts.append(Action("%s:put(%s)" % (n, q.name), p, "put", self._mk_put(p, q, obj), 1))
+                elif len(op) > 3 and ((not op[3]) or op[4] is not None):
+                    # a bounded put that gives up: only while the queue is full
+                    acts.append(Action("%s:put-timeout(%s)" % (n, q.name), p, "timeout", self._mk_exc(p, _queue.Full()), 3))
             elif k == "get":
                 q, block, timeout = op[1], op[2], op[3]
                 if q.pipe:
@@ -299,12 +322,17 @@ class Sched(object):
                 vp = op[1]
                 acts.append(Action("%s:terminate(%s)" % (n, vp._pname()), p, "terminate", self._mk_terminate(p, vp), 1))
             elif k == "exit":
-                if p.name != "main" and all(st["feeder"] in (None, "done") or not st["buf"] for st in self._proc_qstates(p)):
+                if p.name != "main" and all(st["feeder"] in (None, "done") or not st["buf"] or st.get("cancel_join") for st in self._proc_qstates(p)):
                     acts.append(Action("%s:exit(%s)" % (n, p.exitcode_pending), p, "exit", self._mk_exit(p), 2))
             elif k == "lock":
                 path = op[1]
                 if not self._lock_present(path):
                     acts.append(Action("%s:lock(%s)" % (n, path), p, "lock", self._mk_lock(p, path), 1))
+                elif len(op) > 2 and op[2] is not None and op[2] >= 0:
+                    # an acquire that gives up: only while somebody else's marker is present
+                    import filelock
+
+                    acts.append(Action("%s:lock-timeout(%s)" % (n, path), p, "timeout", self._mk_exc(p, filelock.Timeout(path)), 3))
             elif k == "unlock":
                 acts.append(Action("%s:unlock(%s)" % (n, op[1]), p, "unlock", self._mk_unlock(p, op[1]), 1))
             elif k == "read":
@@ -581,9 +609,7 @@ class VQueue(object):
         return st
 
     def put(self, obj, block=True, timeout=None):
-        if not block or timeout is not None:
-            raise VmpError("non-blocking put not modelled")
-        self.sched.op("put", self, obj)
+        self.sched.op("put", self, obj, block, timeout)
 
     def put_nowait(self, obj):
         self.put(obj, False)
@@ -601,7 +627,10 @@ class VQueue(object):
         self.sched.op("join_thread", self)
 
     def cancel_join_thread(self):
-        raise VmpError("cancel_join_thread not modelled")
+        # process-local: this process will not wait for its feeder when the queue is closed / at exit
+        p = current_proc()
+        self.state(p)["cancel_join"] = True
+        self.sched.op("local")
 
     def qsize(self):
         return self.maxsize - self.sem if self.maxsize > 0 else len(self.pipe)
@@ -680,13 +709,21 @@ class VSoftFileLock(object):
     def __init__(self, lock_file, timeout=-1, **_kw):
         self.sched = CURRENT
         self.lock_file = str(lock_file)
+        self.timeout = timeout
         self._held = 0
 
-    def acquire(self, *a, **k):
+    def acquire(self, timeout=None, poll_interval=0.05, **k):
         if self._held == 0:
-            self.sched.op("lock", self.sched.rel(self.lock_file))
+            t = self.timeout if timeout is None else timeout
+            if k.get("blocking") is False:
+                t = 0
+            self.sched.op("lock", self.sched.rel(self.lock_file), t)
         self._held += 1
         return self
+
+    def break_lock(self):
+        """Remove the marker whoever holds it (filelock >= 3.13)."""
+        self.sched.op("fsop", "break_lock", self.lock_file, _break_marker, (self.lock_file,))
 
     def release(self, force=False):
         if self._held > 0:
@@ -705,6 +742,13 @@ class VSoftFileLock(object):
     @property
     def is_locked(self):
         return self._held > 0
+
+
+def _break_marker(path):
+    try:
+        _REAL_UNLINK(path)
+    except FileNotFoundError:
+        pass
 
 
 def pause(tag=""):
